@@ -46,20 +46,20 @@ def OwesPres (s s' : State) (a : TxId) : Prop :=
   (∀ k ts st, s.phase a = .tailLts k ts st →
     s'.phase a = .tailLts k ts st ∨ (ts ≤ s'.lts k ∧ (k = a ∨ k = a + 1)))
 
-theorem just_pres {s s' : State} {a : TxId} (hop : OwesPres s s' a)
+theorem just_pres {s s' : State} {a : TxId} {i t : Nat} (hop : a < i → OwesPres s s' a)
     (hph : ∀ j, j ≠ a → s'.phase j = s.phase j) (hlts : ∀ k, s.lts k ≤ s'.lts k)
-    {i t : Nat} (hia : i ≠ a) (ht : t < s.clock) (h : Justified s i t) : Justified s' i t := by
+    (hia : i ≠ a) (ht : t < s.clock) (h : Justified s i t) : Justified s' i t := by
   rcases h with ⟨k, hk, hlt⟩ | ⟨j, hj, ho⟩ | ⟨j, k, ts, st, hj, hp, hlt⟩
   · exact Or.inl ⟨k, hk, Nat.lt_of_lt_of_le hlt (hlts k)⟩
   · by_cases hja : j = a
     · subst hja
-      rcases hop.1 ho with ho' | ⟨k, st, hp'⟩
+      rcases (hop hj).1 ho with ho' | ⟨k, st, hp'⟩
       · exact Or.inr (Or.inl ⟨j, hj, ho'⟩)
       · exact Or.inr (Or.inr ⟨j, k, s.clock, st, hj, hp', ht⟩)
     · exact Or.inr (Or.inl ⟨j, hj, by rw [hph j hja]; exact ho⟩)
   · by_cases hja : j = a
     · subst hja
-      rcases hop.2 k ts st hp with hp' | ⟨hle, hk⟩
+      rcases (hop hj).2 k ts st hp with hp' | ⟨hle, hk⟩
       · exact Or.inr (Or.inr ⟨j, k, ts, st, hj, hp', hlt⟩)
       · refine Or.inl ⟨k, ?_, Nat.lt_of_lt_of_le hlt hle⟩
         rcases hk with hk | hk <;> omega
@@ -69,7 +69,7 @@ theorem just_pres {s s' : State} {a : TxId} (hop : OwesPres s s' a)
 theorem inv4_of {P : Params} {s s' : State} (a : TxId) (h1 : Inv1 P s) (h : Inv4 s)
     (hother : ∀ i, i ≠ a → s'.phase i = s.phase i ∧ s'.status i = s.status i ∧
       s'.result i = s.result i ∧ s'.uts i = s.uts i)
-    (hop : OwesPres s s' a) (hlts : ∀ k, s.lts k ≤ s'.lts k)
+    (hop : (∃ i, a < i ∧ i < P.n) → OwesPres s s' a) (hlts : ∀ k, s.lts k ≤ s'.lts k)
     (hok : ∀ i reads t, i ≠ a → AllOk s i reads → AllOk s' i reads ∨ Justified s' i t)
     (hself : TxInv4 s' a) : Inv4 s' := by
   intro i
@@ -80,15 +80,18 @@ theorem inv4_of {P : Params} {s s' : State} (a : TxId) (h1 : Inv1 P s) (h : Inv4
     refine ⟨?_, ?_⟩
     · intro hp hst r hr
       rw [e1] at hp; rw [e2] at hst; rw [e3] at hr; rw [e4]
+      have hin : i < P.n := h1.active_lt i (by rw [hst]; simp)
       rcases (h i).unconf hp hst r hr with hall | hj
       · exact hok i r.reads (s.uts i) hia hall
-      · exact Or.inr (just_pres hop hph hlts hia (h1.clk_uts i) hj)
+      · exact Or.inr (just_pres (fun hai => hop ⟨i, hai, hin⟩) hph hlts hia (h1.clk_uts i) hj)
     · intro ts done todo hp
       rw [e1] at hp
       have hck := h1.clk_phase i; rw [hp] at hck
+      have hin : i < P.n := h1.active_lt i (by
+        have := h1.st_phase i; rw [hp] at this; simp only [PhaseStatus] at this; rw [this]; simp)
       rcases (h i).scan ts done todo hp with hall | hj
       · exact hok i done ts hia hall
-      · exact Or.inr (just_pres hop hph hlts hia hck.1 hj)
+      · exact Or.inr (just_pres (fun hai => hop ⟨i, hai, hin⟩) hph hlts hia hck.1 hj)
 
 /-- A step that does not touch MV memory keeps every `AllOk`. -/
 theorem allok_same {s s' : State} (hmv : s'.mv = s.mv) {i : TxId} {reads : List ReadRec}
